@@ -49,6 +49,10 @@ func runC16(c *core.Ctx) {
 		c.Undecided("anchors", c16RelFlate, "packages lib/flatecut and lib/zlibcut load", "package missing")
 		return
 	}
+	if xOnly(c) {
+		c16Index(c, k.g)
+		return
+	}
 	// The sentinel rule builds go/ssa for lib/flatecut; it must run before any
 	// core.Flow of that package exists, because Flow.markBranches inserts
 	// untyped marker statements into the shared syntax trees.
@@ -63,6 +67,7 @@ func runC16(c *core.Ctx) {
 	runC16FlateGuards(k)
 	runC16Zlib(k)
 	runC16Align(k)
+	c16Index(c, k.g)
 }
 
 // ---------------------------------------------------------------------
